@@ -223,7 +223,10 @@ def run(ctx):
                              "atomic_rows": sum(1 for r in table["rows"] if r["atomic"]),
                              "rows_with_lock": sum(1 for r in table["rows"] if r["locks"]),
                              "annotations_used": table["annotations_used"], "unresolved_lock_ops": table["unresolved"],
-                             "excluded_rows": len(table["excluded"]), "unprotected_pairs": len(table["racy"])}
+                             "excluded_rows": len(table["excluded"]), "unprotected_pairs": len(table["racy"]),
+                             "global_variables": sum(1 for f in {r["field"] for r in table["rows"]} if f.startswith("global:")),
+                             "pointer_aliases_followed": table.get("pointer_aliases") or [],
+                             "interface_call_edges_added": table.get("interface_call_edges", 0)}
     ctx.coverage["scenarios"] = scen_info
     # ---- decide
     recorded = 0
